@@ -53,6 +53,7 @@ RunB ==
          \* C14: repeating a run reproduces the output exactly ; C18: three spellings, one output
          Check("same.records", (okAB /\ k = "same") => (Len(B.recs) = Len(A.recs) /\ Related(B, Id, Always, TRUE, {}))),
          Check("same.files", (okAB /\ k = "same") => B.idx = A.idx),
+         Check("same.reference_time", (okAB /\ k = "same") => B.refs = A.refs),
          Check("same.particle_variables", (okAB /\ k = "same") => (Len(B.pvsrc) = Len(A.pvsrc) /\ PvEq(B, Len(A.pvsrc)))),
          \* C14: all times shifted by whole steps
          Check("shift.records", (okAB /\ k = "shift") => LET m(t) == t - B.shift IN (Len(B.recs) = Len(A.recs) /\ Related(B, m, Always, TRUE, {}))),
